@@ -20,15 +20,21 @@ import (
 	"bufio"
 	"bytes"
 	"compress/gzip"
+	"encoding/base64"
 	"crypto/sha256"
 	"encoding/binary"
 	"encoding/json"
 	"fmt"
 	"io"
 	"os"
+	"os/exec"
+	"runtime/debug"
 	"sort"
+	"strconv"
 	"strings"
 	"sync"
+	"syscall"
+	"time"
 
 	"github.com/containerd/stargz-snapshotter/estargz"
 )
@@ -596,4 +602,355 @@ func C05Run(storeName string, workers int, newStore func(worker int) (Store, fun
 		return err
 	}
 	return f.Close()
+}
+
+// ============================================================================================== C04
+// Hostile blobs (TocHostile.tla, Footer.tla), concretised by the estargz module's driver
+// (harness/estargz/verif_hostile_test.go) into $VERIF_BLOBS; here they are driven through a metadata store in
+// CHILD PROCESSES (same protocol as in the estargz driver: a child announces case and entry point before it runs
+// them; the parent attributes a dead or silent child to the case in flight and starts a new child behind it).
+
+type C04Blob struct {
+	Case   int      `json:"case"`
+	Blob   string   `json:"blob"`
+	TocOpt int64    `json:"tocopt"`
+	Names  []string `json:"names"`
+}
+
+type c04Rec struct {
+	Case int    `json:"case"`
+	Ep   string `json:"ep"`
+	Out  string `json:"out"`
+	Msg  string `json:"msg"`
+}
+
+func c04LoadBlobs() ([]C04Blob, error) {
+	f, err := os.Open(os.Getenv("VERIF_BLOBS"))
+	if err != nil {
+		return nil, err
+	}
+	defer f.Close()
+	var res []C04Blob
+	sc := bufio.NewScanner(f)
+	sc.Buffer(make([]byte, 1<<20), 64<<20)
+	for sc.Scan() {
+		var b C04Blob
+		if err := json.Unmarshal(sc.Bytes(), &b); err != nil {
+			return nil, err
+		}
+		res = append(res, b)
+	}
+	return res, sc.Err()
+}
+
+// C04Recorder runs one entry point with panic recovery and records its outcome.
+type C04Recorder struct {
+	progress, out *os.File
+	id            int
+}
+
+func (c *C04Recorder) Run(ep string, f func() error) {
+	fmt.Fprintf(c.progress, "P %d %s\n", c.id, ep)
+	rec := c04Rec{Case: c.id, Ep: ep, Out: "ok"}
+	func() {
+		defer func() {
+			if r := recover(); r != nil {
+				rec.Out, rec.Msg = "panic", fmt.Sprint(r)
+			}
+		}()
+		if err := f(); err != nil {
+			rec.Out, rec.Msg = "error", err.Error()
+			if len(rec.Msg) > 160 {
+				rec.Msg = rec.Msg[:160]
+			}
+		}
+	}()
+	b, _ := json.Marshal(rec)
+	c.out.Write(append(b, '\n'))
+}
+
+// c04Walk touches everything a mounted layer touches, with bounds of its own (depth 6, 400 nodes) so that a cyclic
+// tree yields a finite walk; sizes and offsets come from the hostile TOC, so reads are probed at a few offsets only.
+func c04Walk(r Reader) error {
+	type item struct {
+		id    uint32
+		depth int
+	}
+	queue := []item{{r.RootID(), 0}}
+	n := 0
+	var firstErr error
+	note := func(err error) {
+		if err != nil && firstErr == nil {
+			firstErr = err
+		}
+	}
+	for len(queue) > 0 && n < 400 {
+		it := queue[0]
+		queue = queue[1:]
+		n++
+		attr, err := r.GetAttr(it.id)
+		note(err)
+		_, err = r.GetOffset(it.id)
+		note(err)
+		note(r.ForeachChild(it.id, func(name string, id uint32, mode os.FileMode) bool {
+			_, _, err := r.GetChild(it.id, name)
+			note(err)
+			if it.depth < 6 {
+				queue = append(queue, item{id, it.depth + 1})
+			}
+			return true
+		}))
+		for _, pre := range []bool{false, true} {
+			var f File
+			if pre {
+				f, err = r.OpenFileWithPreReader(it.id, func(id uint32, co, cs int64, dg string, cr io.Reader) error {
+					_, err := io.CopyN(io.Discard, cr, 1<<16)
+					if err == io.EOF {
+						err = nil
+					}
+					return err
+				})
+			} else {
+				f, err = r.OpenFile(it.id)
+			}
+			if err != nil {
+				continue
+			}
+			for _, o := range []int64{-1, 0, 1, 3, 4, attr.Size - 1, attr.Size, 1 << 62} {
+				f.ChunkEntryForOffset(o)
+			}
+			buf := make([]byte, 16)
+			f.ReadAt(buf, 0)
+			f.ReadAt(buf[:1], 3)
+			if attr.Size > 0 {
+				f.ReadAt(buf[:1], attr.Size-1)
+			}
+		}
+	}
+	return firstErr
+}
+
+// C04Child runs the cases [VERIF_C04_FROM, VERIF_C04_TO) against a store. extra runs further entry points that
+// need packages this one cannot import (fs/reader's VerifiableReader.Cache).
+func C04Child(storeName string, store Store, extra func(rec *C04Recorder, r Reader)) error {
+	debug.SetMaxStack(64 << 20) // a runaway recursion is fatal after 64 MiB instead of 1 GiB: same verdict, much sooner
+	var lim syscall.Rlimit
+	lim.Cur, lim.Max = 8<<30, 8<<30
+	syscall.Setrlimit(syscall.RLIMIT_AS, &lim)
+	blobs, err := c04LoadBlobs()
+	if err != nil {
+		return err
+	}
+	from, _ := strconv.Atoi(os.Getenv("VERIF_C04_FROM"))
+	to, _ := strconv.Atoi(os.Getenv("VERIF_C04_TO"))
+	progress, err := os.OpenFile(os.Getenv("VERIF_C04_PROGRESS"), os.O_APPEND|os.O_CREATE|os.O_WRONLY, 0o644)
+	if err != nil {
+		return err
+	}
+	out, err := os.OpenFile(os.Getenv("VERIF_C04_OUT"), os.O_APPEND|os.O_CREATE|os.O_WRONLY, 0o644)
+	if err != nil {
+		return err
+	}
+	for i := from; i < to && i < len(blobs); i++ {
+		fmt.Fprintf(progress, "B %d\n", i)
+		b := blobs[i]
+		data, _ := base64.StdEncoding.DecodeString(b.Blob)
+		rec := &C04Recorder{progress, out, b.Case}
+		var r Reader
+		rec.Run("open", func() error {
+			var opts []Option
+			if b.TocOpt != 0 {
+				opts = append(opts, WithTOCOffset(b.TocOpt))
+			}
+			rr, err := store(io.NewSectionReader(bytes.NewReader(data), 0, int64(len(data))), opts...)
+			if err != nil {
+				return err
+			}
+			// the bolt store parses the TOC in the background: wait for it (and get its verdict) with the first call that does
+			if err := rr.ForeachChild(rr.RootID(), func(string, uint32, os.FileMode) bool { return false }); err != nil {
+				rr.Close()
+				return err
+			}
+			r = rr
+			return nil
+		})
+		if r != nil {
+			rec.Run(storeName+".walk+read", func() error { return c04Walk(r) })
+			if extra != nil {
+				extra(rec, r)
+			}
+			rec.Run(storeName+".clone+close", func() error {
+				r2, err := r.Clone(io.NewSectionReader(bytes.NewReader(data), 0, int64(len(data))))
+				if err == nil {
+					c04Walk(r2)
+				}
+				if cerr := r.Close(); cerr != nil {
+					return cerr
+				}
+				return err
+			})
+		}
+		fmt.Fprintf(progress, "E %d\n", i)
+	}
+	return nil
+}
+
+func c04TopFunc(dump string) string {
+	count := map[string]int{}
+	best := "?"
+	for _, ln := range strings.Split(dump, "\n") {
+		if !strings.HasPrefix(ln, "github.com/") && !strings.HasPrefix(ln, "go.etcd.io/") {
+			continue
+		}
+		f := ln
+		if i := strings.LastIndex(f, "("); i > 0 {
+			f = f[:i]
+		}
+		f = strings.TrimPrefix(f, "github.com/containerd/stargz-snapshotter/")
+		count[f]++
+		if count[f] > count[best] {
+			best = f
+		}
+	}
+	return best
+}
+
+func c04RunSlice(childTest string, w, from, to int, ids []int, outPath string, deadline time.Duration, maxCrash int) (extra []c04Rec, skipped int) {
+	progPath := fmt.Sprintf("%s.progress%d", outPath, w)
+	partPath := fmt.Sprintf("%s.part%d", outPath, w)
+	crashes := 0
+	for from < to {
+		os.Remove(progPath)
+		cmd := exec.Command(os.Args[0], "-test.run=^"+childTest+"$", "-test.timeout=0")
+		cmd.Env = append(os.Environ(), "VERIF_C04_FROM="+strconv.Itoa(from), "VERIF_C04_TO="+strconv.Itoa(to),
+			"VERIF_C04_PROGRESS="+progPath, "VERIF_C04_OUT="+partPath)
+		var stderr bytes.Buffer
+		cmd.Stdout, cmd.Stderr = &stderr, &stderr
+		if err := cmd.Start(); err != nil {
+			return append(extra, c04Rec{Case: -1, Ep: "driver", Out: "fatal", Msg: err.Error()}), to - from
+		}
+		done := make(chan error, 1)
+		go func() { done <- cmd.Wait() }()
+		var werr error
+		hung := false
+		lastSize, lastChange := int64(-1), time.Now()
+	wait:
+		for {
+			select {
+			case werr = <-done:
+				break wait
+			case <-time.After(200 * time.Millisecond):
+				if st, err := os.Stat(progPath); err == nil && st.Size() != lastSize {
+					lastSize, lastChange = st.Size(), time.Now()
+				} else if time.Since(lastChange) > deadline {
+					hung = true
+					cmd.Process.Kill()
+					werr = <-done
+					break wait
+				}
+			}
+		}
+		if werr == nil && !hung {
+			break
+		}
+		idx, ep := from, "?"
+		if raw, err := os.ReadFile(progPath); err == nil {
+			for _, ln := range strings.Split(string(raw), "\n") {
+				f := strings.Fields(ln)
+				if len(f) >= 2 && f[0] == "B" {
+					idx, _ = strconv.Atoi(f[1])
+					ep = "?"
+				} else if len(f) >= 3 && f[0] == "P" {
+					ep = f[2]
+				}
+			}
+		}
+		msg := stderr.String()
+		top := c04TopFunc(msg)
+		if i := strings.Index(msg, "fatal error:"); i >= 0 {
+			msg = msg[i:]
+		} else if i := strings.Index(msg, "panic:"); i >= 0 {
+			msg = msg[i:]
+		}
+		lines := strings.Split(msg, "\n")
+		if len(lines) > 14 {
+			lines = lines[:14]
+		}
+		msg = strings.Join(lines, " | ")
+		if len(msg) > 600 {
+			msg = msg[:600]
+		}
+		outc := "fatal"
+		if hung {
+			outc = "timeout"
+		}
+		extra = append(extra, c04Rec{Case: ids[idx], Ep: ep, Out: outc, Msg: "in " + top + ": " + msg})
+		from = idx + 1
+		crashes++
+		if crashes >= maxCrash {
+			return extra, to - from
+		}
+	}
+	return extra, 0
+}
+
+// C04Parent splits the blobs over workers, each running children of this very test binary.
+func C04Parent(childTest string) error {
+	blobs, err := c04LoadBlobs()
+	if err != nil {
+		return err
+	}
+	outPath := os.Getenv("VERIF_OUT")
+	workers, _ := strconv.Atoi(os.Getenv("VERIF_C04_WORKERS"))
+	if workers <= 0 {
+		workers = 8
+	}
+	deadline := 20 * time.Second
+	if d, err := time.ParseDuration(os.Getenv("VERIF_C04_DEADLINE")); err == nil {
+		deadline = d
+	}
+	ids := make([]int, len(blobs))
+	for i, b := range blobs {
+		ids[i] = b.Case
+	}
+	var mu sync.Mutex
+	var extra []c04Rec
+	skipped := 0
+	var wg sync.WaitGroup
+	per := (len(blobs) + workers - 1) / workers
+	for w := 0; w < workers; w++ {
+		from, to := w*per, (w+1)*per
+		if to > len(blobs) {
+			to = len(blobs)
+		}
+		if from >= to {
+			continue
+		}
+		wg.Add(1)
+		go func(w, from, to int) {
+			defer wg.Done()
+			ex, sk := c04RunSlice(childTest, w, from, to, ids, outPath, deadline, 25)
+			mu.Lock()
+			extra = append(extra, ex...)
+			skipped += sk
+			mu.Unlock()
+		}(w, from, to)
+	}
+	wg.Wait()
+	out, err := os.Create(outPath)
+	if err != nil {
+		return err
+	}
+	for w := 0; w < workers; w++ {
+		if raw, err := os.ReadFile(fmt.Sprintf("%s.part%d", outPath, w)); err == nil {
+			out.Write(raw)
+		}
+	}
+	for _, r := range extra {
+		b, _ := json.Marshal(r)
+		out.Write(append(b, '\n'))
+	}
+	b, _ := json.Marshal(map[string]any{"case": 0, "ep": "driver", "out": "ok", "msg": fmt.Sprintf("skipped=%d", skipped)})
+	out.Write(append(b, '\n'))
+	return out.Close()
 }
